@@ -548,6 +548,7 @@ func runC08(c *Ctx, r *Report) {
 	c08AfterHandOff(c, r, "C08.R20")
 	c08PooledPeerUntouched(c, r, "C08.R21")
 	c16ConstructorsFresh(c, r, "C08.R23", "")
+	c08NoLostUpdate(c, r, "C08.R24")
 	c13PerListener(c, r, "C08.R22") // connections of different listeners never meet: every wrapped listener has a hand-off queue of its own
 	c08QuicAddr(c, r, "C08.R11")
 	c09R6(c, r, "C08.R12")     // a UDP client never reads another client's datagram: queued datagram records do not alias
